@@ -67,6 +67,34 @@ package client
 
 //@ func getType
 //@   props C01 C12
+// A query path becomes one text: every element with its slashes escaped, joined by "/".
+// The caller's query is left alone (default frame: nothing the caller can see is written).
+//@ pred Esc(e string) := strReplace(e, "/", "\\/", -1)
+// escSeq(S): S with every element escaped; escJoin(S): the text of the query path S (definitions).
+//@ spec escSeq(seq[string]) seq[string]
+//@ axiom forall S seq[string] {escSeq(S)} :: len(escSeq(S)) == len(S)
+//@ axiom forall S seq[string], j int {escSeq(S)[j]} :: 0 <= j && j < len(S) ==> escSeq(S)[j] == Esc(S[j])
+//@ spec escJoin(seq[string]) string
+//@ axiom forall S seq[string] {escJoin(S)} :: escJoin(S) == strJoin(escSeq(S), "/")
 //@ func pathToString
-//@   props C01 C12
-//@   invariant 0: fresh(qq) && len(qq) == len(q)
+//@   props C01 C12 C19
+//@   invariant 0: fresh(qq) && len(qq) == len(q) && 0 <= $i && $i <= len(q) && (forall j int :: 0 <= j && j < $i ==> qq[j] == Esc(q[j])) && (forall j int :: $i <= j && j < len(q) ==> qq[j] == q[j])
+//@   ensures [every-element-escaped-then-joined C19 C01] res0 == escJoin(view(q))
+
+// The SubscribeRequest built for a query: target, mode and updates_only as asked, and one
+// subscription per query path, in order, each the parse of that path's escaped text.
+//@ pred SubOf(r *gpb.SubscribeRequest) := r.Request.(*gpb.SubscribeRequest_Subscribe).Subscribe
+//@ func subscribe
+//@   props C01 C12 C19
+//@   requires allocated(q.Queries)
+//@   modifies ghost parsedFrom
+//@   invariant 0: s != nil && fresh(s) && s.Subscribe != nil && fresh(s.Subscribe) && len(s.Subscribe.Subscription) == $i && 0 <= $i && $i <= len(q.Queries)
+//@     && (arr(s.Subscribe.Subscription) == 0 || fresh(s.Subscribe.Subscription))
+//@     && s.Subscribe.Prefix != nil && s.Subscribe.Prefix.Target == q.Target && s.Subscribe.UpdatesOnly == q.UpdatesOnly
+//@     && (forall j int :: 0 <= j && j < $i ==> s.Subscribe.Subscription[j] != nil && allocated(s.Subscribe.Subscription[j]) && s.Subscribe.Subscription[j].Path != nil && allocated(s.Subscribe.Subscription[j].Path))
+//@     && (forall j int :: 0 <= j && j < $i ==> parsedFrom[s.Subscribe.Subscription[j].Path] == escJoin(view(q.Queries[j])))
+//@   ensures [a-rejected-path-fails-the-request C19] res1 != nil ==> res0 == nil
+//@   ensures [request-as-asked C01] res1 == nil ==> res0 != nil && isa(res0.Request.(*gpb.SubscribeRequest_Subscribe)) && SubOf(res0) != nil && SubOf(res0).Prefix != nil
+//@     && SubOf(res0).Prefix.Target == q.Target && SubOf(res0).UpdatesOnly == q.UpdatesOnly && SubOf(res0).Encoding == q.Encoding
+//@   ensures [every-query-path-parsed-from-its-escaped-text-in-order C19 C01] res1 == nil ==> len(SubOf(res0).Subscription) == len(q.Queries)
+//@     && (forall j int :: 0 <= j && j < len(q.Queries) ==> SubOf(res0).Subscription[j] != nil && parsedFrom[SubOf(res0).Subscription[j].Path] == escJoin(view(q.Queries[j])))
